@@ -16,6 +16,8 @@ COMMON_ASSUMPTIONS = [
 
 # theorem names that must be present in Props/<id>.lean (guards against an obligation silently disappearing)
 EXPECTED_THEOREMS = {
+    "C12": ["last_request_decision", "nothing_after_last", "stays_open", "close_after_client_eof", "trace_extends_state"],
+    "C18": ["continue_exactly_once", "continue_is_flushed", "expect_recognised", "no_expect_no_continue", "expect_body_not_preread"],
     "C04": ["pieces_irrelevant", "dechunk_enchunk", "no_body_bytes", "client_roundtrip", "oracle_of_roundtrip"],
     "C05": ["default_threshold", "choose_eq_spec", "never_chunked_for_old_or_nobody", "framing_headers"],
     "C19": ["headers_policy", "headers_policy_append", "declared_length", "protected_never_stored",
